@@ -144,14 +144,22 @@ func nilCollapsing(v ssa.Value, depth int, seen map[ssa.Value]bool) bool {
 	switch x := v.(type) {
 	case *ssa.Call:
 		if b, ok := x.Call.Value.(*ssa.Builtin); ok && b.Name() == "append" && len(x.Call.Args) == 2 {
-			if isNilConst(x.Call.Args[0]) {
+			if isNilConst(x.Call.Args[0]) || phiWithNilEdge(x.Call.Args[0], map[ssa.Value]bool{}) {
 				// append(nil, lit...) of a non-empty constant is never nil
 				if k, ok := x.Call.Args[1].(*ssa.Const); ok && k.Value != nil && len(k.Value.ExactString()) > 2 {
 					return false
 				}
+				// a base that is nil on some path (var old []byte, filled only when the key exists): the same collapse
 				return true
 			}
-			return false
+			return nilCollapsing(x.Call.Args[0], depth, seen)
+		}
+		// unsafe.Slice / unsafe.StringData style conversions: the data pointer of an empty string is nil
+		if b, ok := x.Call.Value.(*ssa.Builtin); ok {
+			switch b.Name() {
+			case "Slice", "SliceData", "StringData", "String":
+				return true
+			}
 		}
 		if cf := x.Call.StaticCallee(); cf != nil && firstParty(cf) && cf.Blocks != nil && cf.Signature.Results().Len() == 1 {
 			for _, b := range cf.Blocks {
@@ -172,6 +180,37 @@ func nilCollapsing(v ssa.Value, depth int, seen map[ssa.Value]bool) bool {
 		}
 	case *ssa.ChangeType:
 		return nilCollapsing(x.X, depth, seen)
+	case *ssa.UnOp:
+		// *(*[]byte)(unsafe.Pointer(&s)): a reinterpreted string header; the empty string has no data pointer
+		if x.Op == token.MUL {
+			if cv, ok := x.X.(*ssa.Convert); ok {
+				if bt, ok := cv.X.Type().Underlying().(*types.Basic); ok && bt.Kind() == types.UnsafePointer {
+					return true
+				}
+			}
+		}
+	case *ssa.Convert:
+		if bt, ok := x.X.Type().Underlying().(*types.Basic); ok && bt.Kind() == types.UnsafePointer {
+			return true
+		}
+	}
+	return false
+}
+
+// phiWithNilEdge: a slice value that is the nil constant on some incoming path.
+func phiWithNilEdge(v ssa.Value, seen map[ssa.Value]bool) bool {
+	if seen[v] {
+		return false
+	}
+	seen[v] = true
+	phi, ok := v.(*ssa.Phi)
+	if !ok {
+		return false
+	}
+	for _, e := range phi.Edges {
+		if isNilConst(e) || phiWithNilEdge(e, seen) {
+			return true
+		}
 	}
 	return false
 }
@@ -275,7 +314,7 @@ var rR31 = RuleRef{Name: "R31", Doc: "null is written, never computed: (a) a poi
 					if !bad && isNilConst(payload) {
 						continue // the written null
 					}
-					c.Add("R31", fnName(fn), fmt.Sprintf("%s #%d keeps empty apart from null", what, ordP), x.Pos(), !bad, "the value is append(nil, src...) (or derived from it), which is nil for an empty src")
+					c.Add("R31", fnName(fn), fmt.Sprintf("%s #%d keeps empty apart from null", what, ordP), x.Pos(), !bad, "the value comes out of an idiom that yields nil for an empty source: append onto a slice that is nil (on some path), or a reinterpreted string header (unsafe)")
 				}
 			}
 		}
